@@ -5,7 +5,7 @@ From Gv Require Import lib.Bytes lib.Json lib.Gql lib.Exec
      C01.ProofsTwoStep C01.ProofsViol C01.ProofsCtxBase C01.ProofsCtx C01.ProofsTwoStepWf C01.ProofsPlanAlg
      C01.ProofsPlan C01.ProofsPlanOk C01.ProofsDedup C01.ProofsListHop
      C01.ProofsTvStatic C01.ProofsTvDefs C01.ProofsTvHidden C01.ProofsPlanGen C01.ProofsPlan2 C01.ProofsPlan2Link
-     C01.ProofsPlan2Root C01.ProofsFuelSuff C01.ProofsPlan3 C01.ProofsPlan3Keys C01.ProofsPlan3Fetch C01.ProofsPlan3Pos.
+     C01.ProofsPlan2Root C01.ProofsFuelSuff C01.ProofsNKeyDefs C01.ProofsPlan3 C01.ProofsPlan3Keys C01.ProofsPlan3Fetch C01.ProofsPlan3Pos.
 Open Scope N_scope.
 
 Section Root3.
@@ -16,6 +16,7 @@ Section Root3.
   Variable tn : bool.
   Variable decls : list (name * list name).
   Variable rdecls : list rdecl.
+  Variable ndecls : list (name * (list name * nkspec)).
   Variable ab : bool.
   Variable k : nat.
 
@@ -25,8 +26,8 @@ Section Root3.
 
   Hypothesis HeQ : find_entity U Q [] = Some eQ.
   Hypothesis Hc : univ3_contract_b sc subs decls rdecls U = true.
-  Hypothesis HFL : FL_at U sc subs vdsM supM F kq tn decls rdecls ab k.
-  Hypothesis HFA : FA_at U sc subs vdsM supM F kq tn decls rdecls ab k.
+  Hypothesis HFL : FL_at U sc subs vdsM supM F kq tn decls rdecls ndecls ab k.
+  Hypothesis HFA : FA_at U sc subs vdsM supM F kq tn decls rdecls ndecls ab k.
 
   (* the per-field results, totalised: on a selection that is not a plain field (never the case in an accepted plan) the
      result is an invalid-request error, so that the shape facts of the plan algebra hold for every field *)
@@ -79,7 +80,7 @@ Section Root3.
   Qed.
 
   Theorem root3_sound ds :
-    tvg_static_b sc subs [] vdsM supM kq ab decls rdecls k ds = true ->
+    tvg_static_b sc subs [] vdsM supM kq ab decls rdecls ndecls k ds = true ->
     (ds_need sc ds <= F)%nat ->
     sres_weq (gateway3 U sc subs [] vdsM supM eQ F F tn k ds) (mono_client3 U sc [] vdsM supM eQ F ds).
   Proof.
@@ -87,14 +88,15 @@ Section Root3.
     apply andb_true_iff in Hok. destruct Hok as [Hok HFs].
     apply andb_true_iff in Hok. destruct Hok as [Hok Hnr].
     apply andb_true_iff in Hok. destruct Hok as [Hwfs Hk].
+    apply andb_true_iff in Hwfs. destruct Hwfs as [_ Hwfs].
     pose proof Hc as Hcu. unfold univ3_contract_b in Hcu.
     destruct (find_entity_In _ _ _ _ HeQ) as [HeU HeT].
     rewrite forallb_forall in HFs.
-    assert (Hst : forall d, In d ds -> item_static_b sc subs [] vdsM supM kq ab decls rdecls k Q (r3_item d) = true).
+    assert (Hst : forall d, In d ds -> item_static_b sc subs [] vdsM supM kq ab decls rdecls ndecls k Q (r3_item d) = true).
     { intros d Hd. specialize (HFs d Hd). unfold rfield3_static_b in HFs. apply andb_true_iff in HFs. apply HFs. }
     assert (Hpl : forall d, In d ds -> (exists a n args ss, item_proj (r3_item d) = SField a n args [] ss) /\
                                       (exists a n args ss, item_client (r3_item d) = SField a n args [] ss)).
-    { intros d Hd. apply (item_static_plain sc subs vdsM supM kq ab decls rdecls k Q). apply Hst. exact Hd. }
+    { intros d Hd. apply (item_static_plain sc subs vdsM supM kq ab decls rdecls ndecls k Q). apply Hst. exact Hd. }
     assert (Hlen : (length ds < F)%nat).
     { apply Nat.lt_le_trans with (m := ds_need sc ds); [|exact HF'].
       unfold ds_need. apply Nat.lt_le_trans with (m := fuel_bound sc (map (fun d => item_client (r3_item d)) ds)); [|lia].
@@ -197,7 +199,7 @@ Section Root3.
     assert (HnoofM : no_oof (snd (Mfold rfield3 m_of3 ds)) = true).
     { rewrite <- HM. unfold mono_client3. apply exec_sels_fuel_sufficient.
       - apply forallb_forall. intros s Hs. apply in_map_iff in Hs. destruct Hs as (d & <- & Hd).
-        apply (proj2 (static_nospread sc subs vdsM supM kq ab decls rdecls k) Q (r3_item d) (Hst d Hd)).
+        apply (proj2 (static_nospread sc subs vdsM supM kq ab decls rdecls ndecls k) Q (r3_item d) (Hst d Hd)).
       - clear -HF'. unfold ds_need in HF'. lia. }
     assert (Hgen : sres_weq (run_fetches (gefs rfield3 r3_key tr_of3 has_fetch3 ds) (Rfold rfield3 a_of3 ds)) (Mfold rfield3 m_of3 ds)).
     { apply (gen_alg rfield3 r3_key a_of3 m_of3 tr_of3 has_fetch3); try assumption.
